@@ -223,8 +223,19 @@ def arbitrary_cases(draw, tier):
     m = draw(st.integers(1, hi))
     n = draw(st.integers(1, hi))
     A = draw(gen.qmat(m, n, patterns=("generic", "generic", "int", "pure_imag", "axis", "sparse", "unit", "zero", "units", "units")))
-    kind = draw(st.sampled_from(["plain", "plain", "zero_col", "dup_row", "scaled"]))
+    kind = draw(st.sampled_from(["plain", "plain", "zero_col", "dup_row", "scaled", "row_dominant", "col_dominant"]))
     A = A.copy()
+    if kind in ("row_dominant", "col_dominant") and m == n:
+        # strictly diagonally dominant by rows resp. by columns (one does not imply the other): partial pivoting keeps
+        # the diagonal only for COLUMN dominance
+        mod = ref.modulus(A)
+        np.fill_diagonal(mod, 0.0)
+        sums = mod.sum(axis=1 if kind == "row_dominant" else 0)
+        for i in range(n):
+            A[i, i] = draw(gen.unit_q()) * (float(sums[i]) + draw(st.sampled_from([0.125, 0.5, 1.0])))
+        # scaling the rows (resp. columns) keeps row (resp. column) dominance and destroys the other one
+        f = 2.0 ** np.array(draw(st.lists(st.integers(-6, 6), min_size=n, max_size=n)), dtype=float)
+        A = A * (f[:, None, None] if kind == "row_dominant" else f[None, :, None])
     if kind == "zero_col":
         A[:, draw(st.integers(0, n - 1))] = 0.0
     elif kind == "dup_row" and m >= 2:
@@ -239,13 +250,37 @@ def arbitrary_cases(draw, tier):
 @st.composite
 def long_lu_cases(draw, tier):
     """Tall / wide with one long dimension, or a square matrix just past the blocking sizes 32 / 64."""
-    shape = draw(st.sampled_from(["tall", "wide", "square"]))
-    if shape == "square":
+    shape = draw(st.sampled_from(["tall", "wide", "square", "wilkinson"]))
+    wilk = shape == "wilkinson"
+    if wilk:
+        m = draw(st.sampled_from([65, 70, 72]))
+        n = m + draw(st.sampled_from([0, 0, 20]))
+        shape = "square" if m == n else "wide"
+    elif shape == "square":
         m = n = draw(st.sampled_from([33, 64, 65] if tier == "quick" else [33, 64, 65, 100, 129]))
     else:
         Lg, sh = draw(gen.long_dim(cap=257 if tier == "quick" else 520)), draw(st.integers(1, 3))
         m, n = (Lg, sh) if shape == "tall" else (sh, Lg)
     A, pat = draw(gen.long_qarray(m, n, draw(st.sampled_from(["generic", "int", "sparse"]))))
+    if wilk:
+        # A = L0 U0 with a unit lower triangle whose leading multipliers all equal -c (c just below 1, one phase):
+        # no interchanges, no element growth in U, but L0's leading triangle is as ill conditioned as a triangle with
+        # multipliers <= 1 can be (Wilkinson's example) - explicit inverses of panel triangles lose many digits
+        k = min(m, n)
+        c = draw(st.sampled_from([0.99, 0.9375, 1.0]))
+        L0 = ref.qeye(m)[:, :k].copy()
+        rng = np.random.RandomState(draw(gen.seeds()))
+        Rnd = rng.uniform(-0.5, 0.5, size=(m, k, 4))
+        for i in range(m):
+            for j in range(min(i, k)):
+                L0[i, j] = [-c, 0, 0, 0] if (i < 40 and j < 40) else Rnd[i, j]
+        U0, _ = draw(gen.long_qarray(k, n, "generic"))
+        U0 = U0 / (4.0 * n)
+        for i in range(k):
+            U0[i, :i] = 0.0
+            U0[i, i] = [2.0 + (i % 3), 0, 0, 0]
+        A = ref.qmm(L0, U0)
+        return {"A": A, "kind": "long:wilkinson_" + shape}
     return {"A": A, "kind": "long:" + shape}
 
 
